@@ -81,7 +81,13 @@ func genDegenerateSchema() spec.Schema {
 }
 
 func genAnyInstance() interface{} {
-	switch verifChoose(14) {
+	switch verifChoose(17) {
+	case 14: // objects that look like schemas: items next to a type that is a list holding non-strings
+		return map[string]interface{}{"items": []interface{}{}, "type": []interface{}{1.0, "array"}}
+	case 15:
+		return map[string]interface{}{"items": map[string]interface{}{}, "type": []interface{}{nil, map[string]interface{}{}, "array"}}
+	case 16:
+		return map[string]interface{}{"a": map[string]interface{}{"items": 1.0, "type": []interface{}{"string", "array"}}, "items": nil, "type": 3.0}
 	case 0:
 		return nil
 	case 1:
